@@ -43,6 +43,24 @@ theorem c12_dispatch (w : Nat) (hw : w = 8 ∨ w = 4) (f : Nat) : (Runtime.backe
     · exact c12_sse42 w hw
     · exact c12_swar w hw true
 
+/-- the scanner backends a build of the crate can end up with -/
+inductive ConcreteBackend : Backend → Prop where
+  | swar (w : Nat) (hw : w = 8 ∨ w = 4) (le : Bool) : ConcreteBackend (Swar.backend w le)
+  | sse42 (w : Nat) (hw : w = 8 ∨ w = 4) : ConcreteBackend (X86.sse42Backend w)
+  | avx2 (w : Nat) (hw : w = 8 ∨ w = 4) : ConcreteBackend (X86.avx2Backend w)
+  | neon (le : Bool) : ConcreteBackend (Gen.Neon.backend 8 le)
+  | runtime (w : Nat) (hw : w = 8 ∨ w = 4) (cached : Nat) : ConcreteBackend (Runtime.backendFor w cached)
+
+/-- every concrete backend is exact — the hypothesis `be.Exact` of the parsing theorems
+(C01–C11, C14–C20) is discharged for each of them -/
+theorem c12_concrete_exact {b : Backend} (h : ConcreteBackend b) : b.Exact := by
+  cases h with
+  | swar w hw le => exact c12_swar w hw le
+  | sse42 w hw => exact c12_sse42 w hw
+  | avx2 w hw => exact c12_avx2 w hw
+  | neon le => exact c12_neon le
+  | runtime w hw f => exact c12_dispatch w hw f
+
 /-- the NEON loops load 16 bytes only while at least 16 remain (obligation on the GENERATED loop
 parameters) -/
 theorem c12_neon_thresholds :
